@@ -79,9 +79,9 @@ def history(task):
     if rng.random() < 0.5:
         vols.append(w.mount(R + b"/vol2"))
     if rng.random() < 0.5:
-        w.dir(R + b"/vol1/.Trash", 0o1777)
+        w.dir(R + b"/vol1/.Trash", rng.choice([0o1777, 0o1777, 0o1770, 0o1700, 0o1750]))     # sticky, whatever the others may do
     if rng.random() < 0.3:
-        w.dir(R + b"/.Trash", rng.choice([0o1777, 0o777]))
+        w.dir(R + b"/.Trash", rng.choice([0o1777, 0o777, 0o1770, 0o1700]))
     dirs = [home + b"/docs", home + b"/docs/sub", R + b"/vol1/stuff", R + b"/vol1/stuff/deep"] + ([R + b"/vol2/x"] if len(vols) > 2 else [])
     for d in dirs:
         w.dir(d)
